@@ -507,7 +507,7 @@ class Parser:
                     % "|".join(self.__expected)
                 )
 
-        except (ParseError, CommandError) as e:
+        except (ParseError, CommandError, UnicodeDecodeError) as e:
             self.error_pos = (
                 self.lexer.curlineno(),
                 self.lexer.curcolno(),
